@@ -678,6 +678,7 @@ int sim_rand(void)
 {
 	Instance *i = W.current;
 	static uint32_t orphan = 12345;
+	if (i && !i->rand_forced.empty()) { int v = i->rand_forced.front(); i->rand_forced.pop_front(); return v; }
 	uint32_t *st = i ? &i->rand_state : &orphan;
 	*st = *st * 1103515245u + 12345u;
 	return (int)((*st >> 1) & 0x7fffffff);
